@@ -560,3 +560,58 @@ def _constructed_around_itself(ctx, ci, slot: str) -> Optional[str]:
                     continue
             return f"{f.qual} constructs one around {short(arg, 30)} (line {n.lineno}), which may itself be a {ci.name}"
     return None if n_sites else "open"
+
+
+# ---- the guard container travels with the recursion -----------------------------------------------------
+def rule_guard_passed_along(ctx, rep, rid: str, only_pred=None, floor: int = 1) -> None:
+    """A recursive converter whose cycle/depth guard lives in an optional parameter (`_path=None`, made on the first
+    call) has to hand that container to every recursive call: a call that leaves it out starts a fresh, empty one,
+    and cycles through that branch (and its depth) are never seen."""
+    rep.rule(rid, "a self-recursive converter that keeps its cycle/depth guard in an optional parameter passes that container on in every recursive call (a call without it starts an empty guard: cycles through that branch recurse until the host stack overflows)", floor=floor)
+    from ..util import bind_args
+
+    n = 0
+    for f, calls in self_recursive(ctx):
+        if only_pred is not None and not only_pred(f.qual):
+            continue
+        if isinstance(f.node, ast.Lambda):
+            continue
+        a = f.node.args
+        defaults = dict(zip([x.arg for x in a.args][len(a.args) - len(a.defaults):], a.defaults))
+        optional = [p for p, d in defaults.items() if isinstance(d, ast.Constant) and d.value is None]
+        guard_params = []
+        for p in optional:
+            # the parameter (or a local made from it: `path = [] if p is None else p`) feeds a guard: a membership /
+            # identity test, or a helper call that receives it together with the value
+            derived = {p}
+            for x in f.own_nodes():
+                if isinstance(x, ast.Assign) and len(x.targets) == 1 and isinstance(x.targets[0], ast.Name) and any(isinstance(y, ast.Name) and y.id == p for y in ast.walk(x.value)):
+                    derived.add(x.targets[0].id)
+            used_as_guard = False
+            for x in f.own_nodes():
+                if isinstance(x, ast.Compare) and isinstance(x.ops[0], (ast.In, ast.NotIn)) and isinstance(x.comparators[0], ast.Name) and x.comparators[0].id in derived:
+                    used_as_guard = True
+                if isinstance(x, ast.Call) and isinstance(x.func, ast.Attribute) and any(w in x.func.attr.lower() for w in ("enter", "guard", "check", "descend")) and any(isinstance(y, ast.Name) and y.id in derived for y in x.args):
+                    used_as_guard = True
+                if isinstance(x, ast.Call) and isinstance(x.func, ast.Attribute) and x.func.attr in ("add", "append") and isinstance(x.func.value, ast.Name) and x.func.value.id in derived:
+                    used_as_guard = True
+            if used_as_guard:
+                guard_params.append((p, derived))
+        if not guard_params:
+            continue
+        n += 1
+        key = f"{f.qual}:guard-passed-along"
+        bad = None
+        for c in calls:
+            b = bind_args(c, f)
+            for p, derived in guard_params:
+                arg = b.get(p)
+                if arg is None or not (isinstance(arg, ast.Name) and arg.id in derived):
+                    bad = (c, p)
+        if bad:
+            c, p = bad
+            rep.bad(rid, key, f"{f.qual} calls itself at line {c.lineno} ({short(c, 40)}) without its guard container `{p}`: that branch starts an empty guard, so a cycle (or unbounded nesting) through it is not detected and the recursion runs into the host's stack limit", f"{f.module.rel}:{c.lineno}")
+        else:
+            rep.ok(rid, key, {"guard_parameters": [p for p, _ in guard_params], "recursive_calls": len(calls)})
+    if n == 0:
+        rep.ok(rid, "no-parameter-carried-guard")
